@@ -141,7 +141,7 @@ def retention_task(n_iter):
                 _get_individual_parameters = McmcPersonalizeAlgorithm._get_individual_parameters
                 _is_burn_in = AlgorithmWithSamplersMixin._is_burn_in
                 random_order_variables = False
-                temperature_inv = 1.0
+                temperature_inv = st.SymScalar(z3.FP("temperature_inv", T.F32), torch.float32)  # annealing may still be on after burn-in
                 current_iteration = 0
 
                 def _device_manager(self, model, dataset):
@@ -199,7 +199,9 @@ def retention_task(n_iter):
             kept_reg = [int(str(reg.sym[k, 0]).split("@")[1].split("[")[0]) for k in range(n_kept)]
             kept_vals = {name: [int(str(v.sym[k, 0, 0]).split("@")[1].split("[")[0]) for k in range(n_kept)] for name, v in values.items()}
             rec.obligations += 1
-            same_iter = all(kv == kept_att for kv in kept_vals.values()) and kept_att == kept_reg and kept_att == sorted(kept_att)
+            # the kept losses / values are the state's own values of that iteration, unweighted (plain symbols, no arithmetic on them)
+            raw = all(x.num_args() == 0 for t_ in [att, reg] + list(values.values()) for x in t_.sym.reshape(-1))
+            same_iter = raw and all(kv == kept_att for kv in kept_vals.values()) and kept_att == kept_reg and kept_att == sorted(kept_att)
             if same_iter and hold["terminated"] and isinstance(res, IndividualParameters) and res._indices == ["b", "a"]:
                 rec.discharged += 1
             else:
@@ -232,7 +234,7 @@ for b in range(0, {n_iter}):
     class H:
         _get_individual_parameters = McmcPersonalizeAlgorithm._get_individual_parameters
         _is_burn_in = AlgorithmWithSamplersMixin._is_burn_in
-        random_order_variables = False; temperature_inv = 1.0; current_iteration = 0
+        random_order_variables = False; temperature_inv = 0.5; current_iteration = 0
         def _device_manager(s, m, d): return contextlib.nullcontext()
         def _initialize_algo(s, m, d): return state
         def _display_progress_bar(s, *a, **k): pass
